@@ -15,7 +15,7 @@
    modelled and are compared by differential execution only. *)
 From Coq Require Import ZArith List Bool Arith.
 Import ListNotations.
-From MV Require Import Time.Spec Time.Ord Static.Build Sched.Timing Sched.Inv Sched.Main Sched.Quiet Sched.Plane Sched.DataP Sched.Mono Sched.Determ.
+From MV Require Import Time.Spec Time.Ord Static.Build Sched.Timing Sched.Inv Sched.Main Sched.Quiet Sched.Plane Sched.DataP Sched.Mono Sched.Determ Sched.PruneRun Sched.PullRun.
 Open Scope Z_scope.
 
 Theorem C04_partial_guards_monotone : forall st s s' i t,
@@ -71,3 +71,55 @@ Example C04_nonvacuous :
         = [Some (0%nat, [0]); Some (0%nat, [1]); Some (1%nat, [0]); Some (1%nat, [1])]
   | _ => False end.
 Proof. vm_compute. repeat split; try reflexivity. discriminate. Qed.
+
+(* the pulled half of the inputs: in two interleavings in which every provider produces the same outputs in its own
+   order (which holds for deterministic providers that perform the same steps, see above), the step (j,t) pulls the
+   same values from its providers' caches - each run's lookups are the lookups in that run's final caches, and the
+   final caches coincide *)
+Theorem C04_pulled_values_same_in_every_interleaving : forall st dt, static_ok st -> pull_strict st dt ->
+  (forall i, increasing (init_outputs dt i)) ->
+  forall j t,
+  forall preA mA postA spA dspA s1A ds1A inpA sfA dsfA,
+  mono_run st dt (init_state st) (init_dstate dt) (preA ++ DBegin j t mA :: postA) ->
+  dfinal st dt (init_state st) (init_dstate dt) preA = Some (spA, dspA) ->
+  dapply_gen false st dt (spA, dspA) (DBegin j t mA) = DOk s1A ds1A (Some inpA) ->
+  dfinal st dt s1A ds1A postA = Some (sfA, dsfA) ->
+  forall preB mB postB spB dspB s1B ds1B inpB sfB dsfB,
+  mono_run st dt (init_state st) (init_dstate dt) (preB ++ DBegin j t mB :: postB) ->
+  dfinal st dt (init_state st) (init_dstate dt) preB = Some (spB, dspB) ->
+  dapply_gen false st dt (spB, dspB) (DBegin j t mB) = DOk s1B ds1B (Some inpB) ->
+  dfinal st dt s1B ds1B postB = Some (sfB, dsfB) ->
+  (forall src, produced src (preA ++ DBegin j t mA :: postA) = produced src (preB ++ DBegin j t mB :: postB)) ->
+  forall src sh flows, In ((src, sh), flows) (pulled dt j) -> look dspA src (thd t - sh) = look dspB src (thd t - sh).
+Proof. exact pulled_same_in_two_runs. Qed.
+Print Assumptions C04_pulled_values_same_in_every_interleaving.
+
+(* non-vacuity: A (time-based) feeds a non-trigger input of B from the cache, lazy stepping off; in the second
+   interleaving A performs both its steps before B begins.  Both runs succeed, have non-decreasing output times, produce
+   the same outputs per provider, and B is given 7 at time 0 and 8 at time 1 in both *)
+Example C04_pulled_nonvacuous :
+  let f := mkF true true true false true 0 false false true in
+  let sc := mkScen [None] (fun _ => 0%nat) (fun _ => TimeBased) 2 [mkConn 0 1 2 0 f false 0] [] 2 100 false true in
+  let eA := [DEv (EvStart 0); DEv (EvStart 1); DBegin 0 [0] 2; DEv (EvStep 0 (Some 1)); DData 0 0 [] [(2%nat,7)]; DBegin 1 [0] 2; DEv (EvStep 1 (Some 1));
+             DBegin 0 [1] 2; DEv (EvStep 0 (Some 2)); DData 0 1 [] [(2%nat,8)]; DBegin 1 [1] 2; DEv (EvStep 1 (Some 2))] in
+  let eB := [DEv (EvStart 0); DEv (EvStart 1); DBegin 0 [0] 2; DEv (EvStep 0 (Some 1)); DData 0 0 [] [(2%nat,7)];
+             DBegin 0 [1] 2; DEv (EvStep 0 (Some 2)); DData 0 1 [] [(2%nat,8)];
+             DBegin 1 [0] 2; DEv (EvStep 1 (Some 1)); DBegin 1 [1] 2; DEv (EvStep 1 (Some 2))] in
+  match prepare 100 sc with
+  | Prepared st dt t anc =>
+      check_static sc t anc = true /\ pull_strictb st dt = true /\
+      mono_run st dt (init_state st) (init_dstate dt) eA /\ mono_run st dt (init_state st) (init_dstate dt) eB /\
+      (forall src, produced src eA = produced src eB) /\
+      filter (fun o => match o with Some _ => true | None => false end) (dinputs false st dt (init_state st) (init_dstate dt) eA) =
+        [Some []; Some [(0%nat, [(0%nat, Some 7)])]; Some []; Some [(0%nat, [(0%nat, Some 8)])]] /\
+      filter (fun o => match o with Some _ => true | None => false end) (dinputs false st dt (init_state st) (init_dstate dt) eB) =
+        [Some []; Some []; Some [(0%nat, [(0%nat, Some 7)])]; Some [(0%nat, [(0%nat, Some 8)])]]
+  | _ => False end.
+Proof.
+  vm_compute prepare. cbv beta iota.
+  split; [vm_compute; reflexivity|]. split; [vm_compute; reflexivity|].
+  split; [vm_compute; repeat split; try (apply le_n || apply le_S, le_n); intros e He; repeat (destruct He as [<-|He]); try contradiction; intros Hc; discriminate Hc|].
+  split; [vm_compute; repeat split; try (apply le_n || apply le_S, le_n); intros e He; repeat (destruct He as [<-|He]); try contradiction; intros Hc; discriminate Hc|].
+  split; [intros src; destruct src as [|[|src]]; reflexivity|].
+  split; vm_compute; reflexivity.
+Qed.
